@@ -36,6 +36,7 @@ def dispatch (R : Type) [Num R] [Inhabited R] [NatCast R] (kind : String) (j : J
   | "graph_expr" => Drv.handleGraphExpr j
   | "scenario" => Drv.handleScenario R j
   | "explicit_fit" => Drv.handleExplicitFit R j
+  | "stages" => Drv.handleStages j
   | "activation" => Drv.handleActivation j
   | "shapes" => Drv.handleShapes j
   | "training_history" => Drv.handleTraining R j
